@@ -129,12 +129,27 @@ func opFacts(s *ast.Schema, doc *ast.QueryDocument, op *ast.OperationDefinition,
 			merged := map[string]ast.SelectionSet{}
 			count := map[string]int{}
 			typ := map[string]*ast.Definition{}
+			dirsOf := map[string]string{}
 			for _, sel := range set {
 				if x, ok := sel.(*ast.Field); ok && x.SelectionSet != nil && x.Definition != nil && x.Definition.Type != nil {
 					key := x.Alias
 					if key == "" {
 						key = x.Name
 					}
+					// copies of one key that differ in @skip / @include: which copy applies is decided per request
+					ds := ""
+					for _, d := range x.Directives {
+						if d.Name == "skip" || d.Name == "include" {
+							ds += "@" + d.Name
+							for _, a := range d.Arguments {
+								ds += "(" + a.Value.String() + ")"
+							}
+						}
+					}
+					if prev, ok := dirsOf[key]; ok && prev != ds {
+						tags["f:dup-key-directives-differ"] = true
+					}
+					dirsOf[key] = ds
 					merged[key] = append(merged[key], x.SelectionSet...)
 					count[key]++
 					typ[key] = s.Types[x.Definition.Type.Name()]
@@ -323,6 +338,31 @@ func refTypedFacts(s *ast.Schema, doc *ast.QueryDocument, set ast.SelectionSet, 
 // shadowed for executor.FindSelection: that function looks for K among the
 // siblings in order and descends into each sibling's subtree before moving on,
 // so an earlier sibling whose subtree contains K is found first.
+// mergeRepeated implements field collection on a flattened field list: fields repeated under one response key
+// (same field name) become one field whose sub-selection is the concatenation of the copies' sub-selections -
+// that is the selection the gateway plans since it merges repeated keys.
+func mergeRepeated(fs []*ast.Field) []*ast.Field {
+	first := map[string]int{}
+	var out []*ast.Field
+	for _, f := range fs {
+		k := f.Alias
+		if k == "" {
+			k = f.Name
+		}
+		if i, ok := first[k]; ok && out[i].Name == f.Name && len(f.SelectionSet) > 0 {
+			c := *out[i]
+			c.SelectionSet = append(append(ast.SelectionSet{}, out[i].SelectionSet...), f.SelectionSet...)
+			out[i] = &c
+			continue
+		}
+		if _, ok := first[k]; !ok {
+			first[k] = len(out)
+		}
+		out = append(out, f)
+	}
+	return out
+}
+
 func keyReuse(op *ast.OperationDefinition, tags map[string]bool) {
 	var flatten func(set ast.SelectionSet) []*ast.Field
 	flatten = func(set ast.SelectionSet) []*ast.Field {
@@ -339,7 +379,7 @@ func keyReuse(op *ast.OperationDefinition, tags map[string]bool) {
 				}
 			}
 		}
-		return out
+		return mergeRepeated(out)
 	}
 	key := func(f *ast.Field) string {
 		if f.Alias != "" {
@@ -514,7 +554,7 @@ func keyReuseRouted(s *ast.Schema, op *ast.OperationDefinition, route func(typ, 
 				}
 			}
 		}
-		return out
+		return mergeRepeated(out)
 	}
 	key := func(f *ast.Field) string {
 		if f.Alias != "" {
